@@ -39,7 +39,7 @@ ASSUMPTIONS = c02.ASSUMPTIONS + [
     "a Content-Encoding set by the handler itself is the handler's business: the client-side decoding check is skipped for it",
     "'mentions gzip' follows the property text: 'gzip;q=0' and 'x-gzip' mention gzip",
 ]
-RULE = ("C02-style programs with chunk sizes around MIN_LENGTH=1024, Content-Type from the whitelist / text/* / with parameters / "
+RULE = ("C02-style programs (incl. invalid / multiple handler-set Content-Length values) with chunk sizes around MIN_LENGTH=1024, Content-Type from the whitelist / text/* / with parameters / "
         "others, Vary and Content-Encoding set by the handler, Accept-Encoding in {absent, gzip, gzip;q=0, identity, GZIP, ...}; "
         "non-trivial = the response was actually compressed and carried data; distinct by canonical JSON")
 EXHAUSTIVE = {"quick": False, "thorough": False}
@@ -108,10 +108,15 @@ def _prog(rng):
             ops.append(["set", "X-Foo", rng.choice(["1", "a\nb"])])
         else:
             ops.append(["finish", _chunk(rng) if rng.random() < 0.6 else None])
-    if rng.random() < 0.25:
+    k = rng.random()
+    if k < 0.25:
         total = len(c02.body_of(ops))
         v = rng.choice([total, total, total, max(0, total - 1), total + 1])
         ops.insert(rng.randint(0, len(ops)), ["set", "Content-Length", str(v)])
+    elif k < 0.37:
+        # a Content-Length parse_int rejects / an unusual one it accepts / several values (C02's stream): flush() must reject
+        # it BEFORE the transform runs, and the error page must then go through a fresh transform
+        c02._insert_odd_cl(rng, ops)
     return ops
 
 
@@ -249,6 +254,9 @@ def stats(case, impl):
     out.append("gzip:%s" % (b"\r\nContent-Encoding: gzip" in head))
     out.append("gzcalls:%d" % min(4, len(impl["tape"])))
     out.append("contract:%s" % impl["contract"])
+    want = c02.intended(case)
+    if c02.cl_invalid(want["headers"]) if "headers" in want else False:
+        out.append("cl:invalid")
     return out
 
 
